@@ -66,3 +66,242 @@ Lemma audio_sidecar_refuted :
   = Ok (VRec "AudioAttributes" [("streaming_sidecar", VNone)])
   /\ in_domain_f 2 legacy "audio" (VRec "AudioAttributes" [("streaming_sidecar", VBytes [1%N])]) = false.
 Proof. split; vm_compute; reflexivity. Qed.
+
+(* ====================== received payloads (C10Payload / C10PayloadProofs) ====================== *)
+From YV Require Import C10.C10Payload C10.C10PayloadProofs.
+
+(* the table generated from the CURRENT source passes the computed check of the payload theorems *)
+Theorem table_ok_thm : table_ok table = true.
+Proof. vm_compute. reflexivity. Qed.
+
+Theorem wf_payload_in_domain_table_thm : forall n cn p,
+  wf_payload n table cn p = true -> gap_payload n table cn p = false ->
+  exists a, from_proto_f n table cn p = Ok a /\ in_domain_f n table cn a = true.
+Proof. exact (wf_payload_in_domain_thm table table_ok_thm). Qed.
+
+Theorem reserialise_full_table_thm : forall n cn p,
+  wf_payload n table cn p = true -> lossy_payload n table cn p = false ->
+  exists a p', from_proto_f n table cn p = Ok a /\ to_proto_f n table cn a = Ok p' /\
+    forall phi, modelled_path table cn phi = true -> pread_at p' phi = pread_at p phi.
+Proof. exact (reserialise_full_thm table table_ok_thm). Qed.
+
+(* ---------- non-vacuity: a nested received payload meeting the hypotheses ---------- *)
+(* Message{ extended_text_message{ text "hi", context_info{ stanza_id "s1", participant "p",
+     mentioned_jid ["a";"b"], quoted_message{ extended_text_message{ text "in",
+       context_info{ stanza_id "s0", quoted_message{ conversation "deep" } } } } } },
+     location_message{ degrees_latitude 0.0 (present, default value), name "" (present, empty) } } *)
+Definition ex_nested : pmsg := [
+  ("extended_text_message", VRec "Message.ExtendedTextMessage" [
+     ("text", VStr [104%N; 105%N]);
+     ("context_info", VRec "ContextInfo" [
+        ("stanza_id", VStr [115%N; 49%N]);
+        ("participant", VStr [112%N]);
+        ("mentioned_jid", VList [VStr [97%N]; VStr [98%N]]);
+        ("quoted_message", VRec "Message" [
+           ("extended_text_message", VRec "Message.ExtendedTextMessage" [
+              ("text", VStr [105%N; 110%N]);
+              ("context_info", VRec "ContextInfo" [
+                 ("stanza_id", VStr [115%N; 48%N]);
+                 ("quoted_message", VRec "Message" [
+                    ("conversation", VStr [100%N; 101%N; 101%N; 112%N])])])])])])]);
+  ("location_message", VRec "Message.LocationMessage" [
+     ("degrees_latitude", VFlt 0%N);
+     ("name", VStr [])])
+].
+
+Definition deep_path : path :=
+  ["extended_text_message"; "context_info"; "quoted_message"; "extended_text_message"; "context_info";
+   "quoted_message"; "conversation"].
+
+Example nested_payload_meets_hypotheses :
+  wf_payload 8 table "message" ex_nested = true
+  /\ lossy_payload 8 table "message" ex_nested = false
+  /\ modelled_path table "message" deep_path = true
+  /\ pread_at ex_nested deep_path = Some (VStr [100%N; 101%N; 101%N; 112%N])
+  /\ modelled_path table "message" ["location_message"; "name"] = true
+  /\ pread_at ex_nested ["location_message"; "name"] = Some (VStr [])
+  /\ pread_at ex_nested ["location_message"; "address"] = None.
+Proof. repeat split; vm_compute; reflexivity. Qed.
+
+(* ... and the conclusion computed on it: the nested conversation, the present empty name and the
+   present 0.0 latitude are still there, the absent address is still absent *)
+Example nested_payload_reserialised :
+  exists p', reserialise_f 8 table "message" ex_nested = Ok p'
+    /\ pread_at p' deep_path = Some (VStr [100%N; 101%N; 101%N; 112%N])
+    /\ pread_at p' ["location_message"; "name"] = Some (VStr [])
+    /\ pread_at p' ["location_message"; "degrees_latitude"] = Some (VFlt 0%N)
+    /\ pread_at p' ["location_message"; "address"] = None.
+Proof. eexists. repeat split; vm_compute; reflexivity. Qed.
+
+(* no depth bound: a quote chain of ANY depth d (message -> extended text -> context info ->
+   quoted message -> ...) is well-formed and outside the lossy class, hence covered by the full
+   statement; three fuel units per quote level *)
+Fixpoint quote_chain (d : nat) : pmsg :=
+  match d with
+  | O => [("conversation", VStr [100%N])]
+  | S d' => [("extended_text_message", VRec "Message.ExtendedTextMessage" [
+               ("text", VStr [116%N]);
+               ("context_info", VRec "ContextInfo" [
+                  ("stanza_id", VStr [115%N]);
+                  ("quoted_message", VRec "Message" (quote_chain d'))])])]
+  end.
+Fixpoint fuel3 (d : nat) : nat := match d with O => 1%nat | S d' => S (S (S (fuel3 d'))) end.
+
+Ltac step_with H :=
+  cbn [wf_payload lossy_payload];
+  match goal with
+  | |- context [wf_level _ (wf_payload ?n table)] => set (W := wf_payload n table) in *; clearbody W
+  | |- context [lossy_level _ (lossy_payload ?n table)] => set (W := lossy_payload n table) in *; clearbody W
+  end;
+  vm_compute; rewrite H; reflexivity.
+
+Lemma wf_step_m : forall n sub, wf_payload n table "extendedtext" sub = true ->
+  wf_payload (S n) table "message" [("extended_text_message", VRec "Message.ExtendedTextMessage" sub)] = true.
+Proof. intros n sub H. step_with H. Qed.
+Lemma wf_step_e : forall n sub, wf_payload n table "contextinfo" sub = true ->
+  wf_payload (S n) table "extendedtext" [("text", VStr [116%N]); ("context_info", VRec "ContextInfo" sub)] = true.
+Proof. intros n sub H. step_with H. Qed.
+Lemma wf_step_c : forall n sub, wf_payload n table "message" sub = true ->
+  wf_payload (S n) table "contextinfo" [("stanza_id", VStr [115%N]); ("quoted_message", VRec "Message" sub)] = true.
+Proof. intros n sub H. step_with H. Qed.
+Lemma lossy_step_m : forall n sub, lossy_payload n table "extendedtext" sub = false ->
+  lossy_payload (S n) table "message" [("extended_text_message", VRec "Message.ExtendedTextMessage" sub)] = false.
+Proof. intros n sub H. step_with H. Qed.
+Lemma lossy_step_e : forall n sub, lossy_payload n table "contextinfo" sub = false ->
+  lossy_payload (S n) table "extendedtext" [("text", VStr [116%N]); ("context_info", VRec "ContextInfo" sub)] = false.
+Proof. intros n sub H. step_with H. Qed.
+Lemma lossy_step_c : forall n sub, lossy_payload n table "message" sub = false ->
+  lossy_payload (S n) table "contextinfo" [("stanza_id", VStr [115%N]); ("quoted_message", VRec "Message" sub)] = false.
+Proof. intros n sub H. step_with H. Qed.
+
+Lemma quote_chain_meets_hypotheses : forall d,
+  wf_payload (fuel3 d) table "message" (quote_chain d) = true
+  /\ lossy_payload (fuel3 d) table "message" (quote_chain d) = false.
+Proof.
+  induction d as [|d [IH1 IH2]].
+  - split; vm_compute; reflexivity.
+  - cbn [fuel3 quote_chain]. split.
+    + apply wf_step_m, wf_step_e, wf_step_c. exact IH1.
+    + apply lossy_step_m, lossy_step_e, lossy_step_c. exact IH2.
+Qed.
+
+Theorem quote_chain_reserialises_thm : forall d,
+  exists a p', from_proto_f (fuel3 d) table "message" (quote_chain d) = Ok a
+    /\ to_proto_f (fuel3 d) table "message" a = Ok p'
+    /\ forall phi, modelled_path table "message" phi = true -> pread_at p' phi = pread_at (quote_chain d) phi.
+Proof.
+  intro d. destruct (quote_chain_meets_hypotheses d) as [H1 H2].
+  exact (reserialise_full_table_thm _ _ _ H1 H2).
+Qed.
+
+(* ---------- the lossy classes of the current source, with witnesses ---------- *)
+(* class 1: an absent scalar that the from-side reads without HasField (video: every field) comes
+   back present with its default *)
+Definition wit_absent_scalar : pmsg :=
+  [("video_message", VRec "Message.VideoMessage" [("url", VStr [117%N])])].
+
+Lemma reserialise_absent_scalar_refuted :
+  exists p p', wf_payload 8 table "message" p = true
+    /\ lossy_payload 8 table "message" p = true
+    /\ reserialise_f 8 table "message" p = Ok p'
+    /\ modelled_path table "message" ["video_message"; "caption"] = true
+    /\ pread_at p ["video_message"; "caption"] = None
+    /\ pread_at p' ["video_message"; "caption"] = Some (VStr []).
+Proof. exists wit_absent_scalar. eexists. repeat split; vm_compute; reflexivity. Qed.
+
+(* class 2: an absent sub-message that is parsed unconditionally (protocol_message.key) comes back
+   present and filled with defaults *)
+Definition wit_absent_submessage : pmsg :=
+  [("protocol_message", VRec "Message.ProtocolMessage" [("type", VInt 0)])].
+
+Lemma reserialise_absent_submessage_refuted :
+  exists p p', wf_payload 8 table "message" p = true
+    /\ lossy_payload 8 table "message" p = true
+    /\ reserialise_f 8 table "message" p = Ok p'
+    /\ modelled_path table "message" ["protocol_message"; "key"] = true
+    /\ pread_at p ["protocol_message"; "key"] = None
+    /\ pread_at p' ["protocol_message"; "key"] = Some (VRec "MessageKey" [])
+    /\ pread_at p' ["protocol_message"; "key"; "id"] = Some (VStr []).
+Proof. exists wit_absent_submessage. eexists. repeat split; vm_compute; reflexivity. Qed.
+
+(* the gap class: DocumentMessage without file_length parses to an object OUTSIDE the computed
+   domain (file_length is read once with and once without HasField); it still re-serialises, with
+   file_length = 0 materialised *)
+Definition wit_gap : pmsg :=
+  [("document_message", VRec "Message.DocumentMessage" [("url", VStr [117%N])])].
+
+Lemma payload_domain_gap_refuted :
+  exists p a p', wf_payload 8 table "message" p = true
+    /\ gap_payload 8 table "message" p = true
+    /\ from_proto_f 8 table "message" p = Ok a
+    /\ in_domain_f 8 table "message" a = false
+    /\ to_proto_f 8 table "message" a = Ok p'
+    /\ pread_at p ["document_message"; "file_length"] = None
+    /\ pread_at p' ["document_message"; "file_length"] = Some (VInt 0).
+Proof. exists wit_gap. eexists. eexists. repeat split; vm_compute; reflexivity. Qed.
+
+(* the unrepaired converter at proto level: a PRESENT empty conversation is dropped *)
+Lemma legacy_present_empty_conversation_refuted :
+  exists p p', reserialise_f 2 legacy "message" p = Ok p'
+    /\ pread_at p ["conversation"] = Some (VStr []) /\ pread_at p' ["conversation"] = None
+    /\ table_ok legacy = false.
+Proof. exists [("conversation", VStr [])]. eexists. repeat split; vm_compute; reflexivity. Qed.
+
+(* ---------- the same three classes on a PINNED excerpt of the converter as it is today ----------
+   (survives a repair of the source: when proto_to_video & co. learn HasField, the witnesses above,
+   which speak about the GENERATED table, have to go; these stay as the regression guard) *)
+Definition mk_st (g : guard) (pf src : name) (k : tkind) : tstmt :=
+  {| ts_guard := g; ts_pf := pf; ts_src := src; ts_kind := k |}.
+Definition mk_fa (f : name) (e : fexpr) (s : store) (c : ck) : farg :=
+  {| fa_field := f; fa_expr := e; fa_store := s; fa_ck := c |}.
+
+Definition unrepaired_payload_table : C10Model.table := {| t_schema := schema; t_convs := [
+  ("message_key", {| cv_cls := "MessageKeyAttributes"; cv_msg := "MessageKey";
+     cv_to := [mk_st GAlways "remote_jid" "remote_jid" KAssign; mk_st GAlways "from_me" "from_me" KAssign;
+               mk_st GAlways "id" "id" KAssign; mk_st GAlways "participant" "participant" KAssign];
+     cv_from := [mk_fa "remote_jid" (FField "remote_jid") SPlain CkNone; mk_fa "from_me" (FField "from_me") SPlain CkNone;
+                 mk_fa "id" (FField "id") SPlain CkNone; mk_fa "participant" (FField "participant") SPlain CkNone] |});
+  ("protocol", {| cv_cls := "ProtocolAttributes"; cv_msg := "Message.ProtocolMessage";
+     cv_to := [mk_st GAlways "key" "key" (KMerge "message_key"); mk_st GAlways "type" "type" KAssign];
+     cv_from := [mk_fa "key" (FConv "message_key" "key") SPlain (CkCls "MessageKeyAttributes");
+                 mk_fa "type" (FField "type") SPlain (CkIn [0%Z])] |});
+  ("video", {| cv_cls := "VideoAttributes"; cv_msg := "Message.VideoMessage";
+     cv_to := [mk_st GNotNone "caption" "caption" KAssign;
+               mk_st GNotNone "url" "downloadablemedia_attributes.url" KAssign];
+     cv_from := [mk_fa "downloadablemedia_attributes.url" (FField "url") SPlain CkNone;
+                 mk_fa "caption" (FField "caption") SPlain CkNone] |});
+  ("document", {| cv_cls := "DocumentAttributes"; cv_msg := "Message.DocumentMessage";
+     cv_to := [mk_st GNotNone "file_length" "file_length" KAssign;
+               mk_st GAlways "file_length" "downloadablemedia_attributes.file_length" KAssign;
+               mk_st GNotNone "url" "downloadablemedia_attributes.url" KAssign];
+     cv_from := [mk_fa "downloadablemedia_attributes.url" (FIfHas "url" "url") SPlain CkNone;
+                 mk_fa "downloadablemedia_attributes.file_length" (FField "file_length") SPlain CkNone;
+                 mk_fa "file_length" (FIfHas "file_length" "file_length") SPlain CkNone] |});
+  ("message", {| cv_cls := "MessageAttributes"; cv_msg := "Message";
+     cv_to := [mk_st GTruthy "video_message" "video" (KMerge "video");
+               mk_st GTruthy "document_message" "document" (KMerge "document");
+               mk_st GTruthy "protocol_message" "protocol" (KMerge "protocol")];
+     cv_from := [mk_fa "video" (FConvIfHas "video" "video_message" "video_message") SPlain CkNone;
+                 mk_fa "document" (FConvIfHas "document" "document_message" "document_message") SPlain CkNone;
+                 mk_fa "protocol" (FConvIfHas "protocol" "protocol_message" "protocol_message") SPlain CkNone] |})
+  ] |}.
+
+Lemma unrepaired_payload_classes :
+  table_ok unrepaired_payload_table = true
+  /\ (exists p', wf_payload 8 unrepaired_payload_table "message" wit_absent_scalar = true
+        /\ lossy_payload 8 unrepaired_payload_table "message" wit_absent_scalar = true
+        /\ reserialise_f 8 unrepaired_payload_table "message" wit_absent_scalar = Ok p'
+        /\ pread_at wit_absent_scalar ["video_message"; "caption"] = None
+        /\ pread_at p' ["video_message"; "caption"] = Some (VStr []))
+  /\ (exists p', wf_payload 8 unrepaired_payload_table "message" wit_absent_submessage = true
+        /\ lossy_payload 8 unrepaired_payload_table "message" wit_absent_submessage = true
+        /\ reserialise_f 8 unrepaired_payload_table "message" wit_absent_submessage = Ok p'
+        /\ pread_at wit_absent_submessage ["protocol_message"; "key"] = None
+        /\ pread_at p' ["protocol_message"; "key"; "id"] = Some (VStr []))
+  /\ (exists a, wf_payload 8 unrepaired_payload_table "message" wit_gap = true
+        /\ gap_payload 8 unrepaired_payload_table "message" wit_gap = true
+        /\ from_proto_f 8 unrepaired_payload_table "message" wit_gap = Ok a
+        /\ in_domain_f 8 unrepaired_payload_table "message" a = false).
+Proof.
+  split; [vm_compute; reflexivity|]. split; [|split]; eexists; repeat split; vm_compute; reflexivity.
+Qed.
